@@ -16,7 +16,7 @@ OUTSIDE = 'larger arrays; float rounding of bin edges; NaN/inf'
 ASSUMPTIONS = ['sparse.coo_matrix (and its sum/mean over axis 0) modelled as dense accumulation; real scipy in replays']
 REQUIRED_CLASSES = ['carrier-out-of-range', 'am-out-of-range', 'both-in-range', 'two-samples-same-cell']
 EXPECTED_LABELS = ['never-raises', 'full-equals-bruteforce', 'shape', 'sum-equals-time-sum', 'mean-equals-time-mean']
-BUDGET_S = {'quick': 150, 'thorough': 1200}
+BUDGET_S = {'quick': 150, 'thorough': 900}
 
 
 def configs(tier):
